@@ -30,8 +30,8 @@ CLAIMED = {
    text="tags_equiv: for every valid, printable constraint set and every assignment the toolchain reading of the printed lines equals avo's Evaluate; tags_roundtrip; tags_invalid. Real Validate/Evaluate/GoString/Format/ParseConstraint compared exactly with the model on generated formulas x all assignments; the real go/build/constraint and go/build.MatchFile evaluate avo's printed header in accept- requests.",
    note=TB + "The //go:build expression parser is a measured assumption; tag character table measured from the installed unicode tables. Findings F8c/F8d (size limits of go/format and go/build/constraint) are listed in known_findings.json."),
  "C17": dict(cat="proof", tech="Lean 4 permutation-invariance lemmas + regenerated map-iteration census + multi-run/multi-process measurement",
-   text="Every range-over-map in the generation path is enumerated from source (go/types) and pinned by a kernel-checked expected list; order independence is proved for MaskSet operations, candidate sorting, mostrestricted and the liveness visiting order. Generated tie-heavy programs are compiled 20x in-process and in 4 fresh processes per quick run; asm bytes, stub bytes, allocation and ISA lists must be identical.",
-   note=TB + "Order independence of the allocator's edge list, the per-kind loop and Allocation.Merge is measured, not proved."),
+   text="Every range-over-map in the generation path is enumerated from source (go/types) and pinned by a kernel-checked expected list; order independence is proved for MaskSet operations, candidate sorting, mostrestricted, the whole Allocate loop w.r.t. the order of the interference edge list and of the possible map (allocLoop_perm), and the liveness visiting order. Generated tie-heavy programs are compiled 20x in-process and in 4 fresh processes per quick run; asm bytes, stub bytes, allocation and ISA lists must be identical.",
+   note=TB + "Order independence of the per-kind allocator loop, Allocation.Merge (disjoint keys) and the sorted ISA list is measured, not proved."),
  "C19": dict(cat="proof", tech="Lean 4 proof + regenerated tables + exhaustive correspondence",
    text="attr_value (all 16-bit values, any name table consistent with the header), text_clause_value, attr_include, include_pass; consistency of avo's regenerated table with the installed textflag.h by decide; exhaustive correspondence over all 65536 values x both directive kinds plus an acceptor evaluating the implementation's own text.",
    note=TB + "Assumed: the assembler evaluates A|B|n as bitwise OR; textflag.h parser."),
@@ -54,6 +54,10 @@ CLAIMED = {
  "C20": dict(cat="proof", tech="Lean 4 arithmetic proofs + decide over regenerated register table x measured hardware table + exhaustive correspondence",
    text="newid/idKind/idIndex round trips for all inputs; over the regenerated register table and the measured assembler/CPU table (decide +kernel, complete over 172 views): hardware number, width, mask bytes = bytes a write changes, identity iff same kind and hardware register, lookup returns exactly the existing views (none only for 8H on index >= 4), virtual view conversion keeps id and yields the requested spec, Collection ids are distinct for the first 2^16 allocations. All conversions/lookups/classifications of the real API compared exhaustively.",
    note=TB + "Oracle.RegHW is measured on this host on every run (go tool asm + three decoders + execution). Finding F13: the 65537th virtual register of a kind collides with the first (uint16 index)."),
+
+ "C15": dict(cat="proof", tech="Lean 4 proofs about EnsureBasePointerCalleeSaved + prologue machine + decide over regenerated/measured tables + correspondence + execution",
+   text="bp_saved / bp_noframe_refused / bp_untouched_when_not_clobbered / C15: whenever a bound function writes any view of GP register 5 the pass either errors (NOFRAME) or leaves a frame > 0 for which the assembler's rule saves and restores BP (both the rule quoted in avo and the installed assembler's), and on a small prologue/epilogue machine the caller then sees the same BP; bp_any_view, zero-extension and pass-order facts by decide over regenerated tables; the assembler rule itself is measured on the full attribute x frame x call grid (Oracle/AsmBP) and tied by decide. Real passes compared exactly on generated functions (author-named BP views, allocator forced onto BP by pressure); compiled samples executed through a trampoline that observes the caller's BP.",
+   note=TB + "Proof-partial: the assembler's prologue behaviour is measured on this host/toolchain, not proved; declared outputs are assumed to cover hardware writes (C04); no LEAVE/ENTER in avo's table."),
 }
 
 def main():
